@@ -65,6 +65,26 @@ eq, lt, gt, lte }` (src/uint/{add,sub,neg,cmp}.rs; namespace CB.Gen.Chains.Uint)
       in the order of their declaration in the function (not of their use: reordering the statements of the body keeps
       the signature).  An untyped state variable (`let mut carry = 1;`) gets the one integer width that type-checks the
       body (tried: 8, 32, 64, 128; none or several -> unsupported).
+
+Fourth unit group (written to lean/CB/Gen/Modular.lean, imports CB.Gen.Chains): the modular add / sub / neg layer (C07) —
+`impl Limb { bitand, bitor, not, wrapping_neg, shl1 }` (src/limb/{bit_and,bit_or,bit_not,neg,shl}.rs; namespace
+CB.Gen.Modular.Limb), `impl<const LIMBS: usize> Uint<LIMBS> { bitand, bitand_limb, from_word, overflowing_shl1, add_mod,
+add_mod_special, double_mod, sub_mod, sub_mod_with_carry, sub_mod_special, neg_mod, neg_mod_special }`
+(src/uint/{bit_and,from,shl,add_mod,sub_mod,neg_mod}.rs; namespace CB.Gen.Modular.Uint) and the free forwarders
+`add_montgomery_form`, `double_montgomery_form`, `sub_montgomery_form` (src/modular/{add,sub}.rs; CB.Gen.Modular.Form).
+Subset extensions used there (switched on per unit, so the earlier generated files do not change):
+  the methods of one Rust type spread over SEVERAL units: a method call on a `Limb` / `Uint` value resolves to the unit
+  itself, then to the primary unit of the type (`limb` / `uint`, the Chains unit), then to the units listed under
+  `more_limb` / `more_uint`; `wrapping_neg/add/sub/mul` on a `Limb` receiver is the translated `Limb` method when one
+  exists (otherwise the builtin word operation, as before);
+  assignment through a place expression: `x.limbs[i] = e`, `x[i].0 = e`, `x.limbs[i].0 = e` (and the compound forms) are
+  `x.set i e` / `x.set i (Limb(e))`; `Self::ZERO` / `Uint::ZERO` of a `Uint<LIMBS>` is `List.replicate LIMBS 0#64` (the crate
+  defines it as `from_u8(0)`); `Limb::HI_BIT` / `Self::HI_BIT` is the constant 63 (`Limb::BITS - 1`);
+  `skip_asserts`: `assert!(cond, "msg");` is skipped like `debug_assert!` (the translation is the function's value on the
+  inputs that do not panic — `from_word` asserts `LIMBS >= 1`; panic freedom is a separate property);
+  `free_generic`: free functions `const fn f<const LIMBS: usize>(a: &Uint<LIMBS>, m: &Odd<Uint<LIMBS>>) -> Uint<LIMBS>`
+  (a unit with `self_ty=None`, `generic='LIMBS'`, gathered from whole files): `Uint<LIMBS>` is the limb list, `Odd<Uint<LIMBS>>`
+  a newtype over it (`.0` is the value).
 """
 import os, re, sys, json
 
@@ -77,6 +97,10 @@ WIDTH = {'u8': 8, 'u32': 32, 'u64': 64, 'u128': 128, 'Word': 64, 'WideWord': 128
 
 class Unsupported(Exception):
     pass
+
+
+# options of the unit being translated (set in main(); `skip_asserts`, `free_generic`)
+OPTS = {}
 
 
 # ------------------------------------------------------------------ tokenizer
@@ -313,6 +337,41 @@ class P:
         stmts.append(('assign_idx', name, idx, op, rhs))
         return True
 
+    def place_assign(self, stmts):
+        """`x.limbs[i] op= e;`, `x[i].0 op= e;`, `x.limbs[i].0 op= e;` -> ('assign_idx', x, i, '=', e'); leaves the position
+        untouched when the statement is something else"""
+        save = self.i
+        try:
+            lhs = self.postfix()
+        except Unsupported:
+            self.i = save
+            return False
+        if not (self.peek()[0] == 'op' and self.peek()[1] in ASSIGN_OPS):
+            self.i = save
+            return False
+        word = lhs[0] == 'field' and lhs[2] == 0
+        place = lhs[1] if word else lhs
+        if place[0] != 'index':
+            self.i = save
+            return False
+        arr = place[1]
+        if arr[0] == 'nfield' and arr[2] == 'limbs':
+            arr = arr[1]
+        if arr[0] != 'var':
+            self.i = save
+            return False
+        op = self.eat()[1]
+        rhs = self.expr()
+        self.eat('op', ';')
+        cur = ('index', ('var', arr[1]), place[2])
+        if word:
+            cur = ('field', cur, 0)
+        val = rhs if op == '=' else ('bin', op[:-1], cur, rhs)
+        if word:
+            val = ('call', ['Limb'], [val])
+        stmts.append(('assign_idx', arr[1], place[2], '=', val))
+        return True
+
     def block(self):
         """statements up to the closing brace / end of input -> (statements, final expression or None)"""
         stmts = []
@@ -342,6 +401,8 @@ class P:
                 self.eat('op', ';')
                 stmts.append(('assign', name, op, rhs))
             elif tok[0] == 'id' and self.peek(1) == ('op', '[') and self.indexed_assign(stmts):
+                pass
+            elif tok[0] == 'id' and self.peek(1) in (('op', '['), ('op', '.')) and self.place_assign(stmts):
                 pass
             else:
                 e = self.expr()
@@ -414,9 +475,12 @@ FN = re.compile(r'((?:\s*#\[[^\]]*\]\s*)*)\s*pub(?:\([a-z]+\))?\s+const\s+fn\s+(
 FN_PRIV = re.compile(r'((?:\s*#\[[^\]]*\]\s*)*)\s*(?:pub(?:\([a-z]+\))?\s+)?const\s+fn\s+(\w+)\s*\(([^)]*)\)\s*->\s*([^{]+)\{')
 
 
+FN_GEN = re.compile(r'((?:\s*#\[[^\]]*\]\s*)*)\s*(?:pub(?:\([a-z]+\))?\s+)?const\s+fn\s+(\w+)\s*(?:<[^>()]*>)?\s*\(([^)]*)\)\s*->\s*([^{]+)\{')
+
+
 def find_functions(src, private=False):
     """yield (attrs, name, params, ret, body)"""
-    for m in (FN_PRIV if private else FN).finditer(src):
+    for m in (FN_GEN if OPTS.get('free_generic') else FN_PRIV if private else FN).finditer(src):
         depth, j = 1, m.end()
         while depth and j < len(src):
             depth += {'{': 1, '}': -1}.get(src[j], 0)
@@ -465,6 +529,10 @@ def ty_of(t, self_ty):
     m = re.match(r'\((.*)\)$', t)
     if m:
         return tuple(ty_of(x, self_ty) for x in m.group(1).split(','))
+    if OPTS.get('free_generic') and re.match(r'Uint\s*<\s*LIMBS\s*>$', t):
+        return 'uint'
+    if OPTS.get('free_generic') and re.match(r'Odd\s*<\s*Uint\s*<\s*LIMBS\s*>\s*>$', t):
+        return 'odduint'     # `Odd<Uint<LIMBS>>`: a newtype over the limb list, `.0` is the value
     raise Unsupported('type ' + t)
 
 
@@ -480,6 +548,8 @@ def lean_ty(t):
     if isinstance(t, str) and t.startswith('wrap:'):
         return 'BitVec 64'
     if t == 'uint':
+        return 'List (BitVec 64)'
+    if t == 'odduint':
         return 'List (BitVec 64)'
     if t == 'nat':
         return 'Nat'
@@ -550,6 +620,8 @@ class Gen:
             return WIDTH[e[1][0]]
         if k == 'path' and e[1] == ['Limb', 'BITS']:
             return 64
+        if k == 'path' and len(e[1]) == 2 and e[1][1] == 'HI_BIT' and (e[1][0] == 'Limb' or (e[1][0] == 'Self' and self.self_ty == 'Limb')):
+            return 63
         if k == 'bin' and e[1] in '+-*':
             a, b = self.const(e[2]), self.const(e[3])
             if a is None or b is None:
@@ -575,8 +647,17 @@ class Gen:
             return (c[0], c[1].get(name)) if c else (None, None)
         if where in ('limb', 'uint'):
             # a method of `Limb` / `Uint<LIMBS>`: the unit itself when it is the impl of that type, else the unit holding it
+            more = ([self.ext[where]] if self.ext.get(where) else []) + list(self.ext.get(where + '+') or [])
             if self.self_ty == {'limb': 'Limb', 'uint': 'Uint'}[where]:
-                return (self.ns, self.sigs[name]) if name in self.sigs else (None, None)
+                if name in self.sigs:
+                    return (self.ns, self.sigs[name])
+                for ns, sg in more:          # the methods of the type that live in other units (Chains, `more_limb`/`more_uint`)
+                    if name in sg:
+                        return ns, sg[name]
+                return (None, None)
+            for ns, sg in more[1:]:
+                if name in sg and not (more[0][1].get(name)):
+                    return ns, sg[name]
             c = self.ext.get(where)
             return (c[0], c[1].get(name)) if c else (None, None)
         if where == 'bare' and self.self_ty in ('Limb', 'Uint'):
@@ -628,6 +709,12 @@ class Gen:
                 return {'ZERO': '0#64', 'ONE': '1#64', 'MAX': '(~~~0#64)'}[p[1]], 'wrap:1'
             if len(p) == 2 and p[0] == 'Limb' and p[1] == 'BITS':
                 return '64#32', 32
+            if len(p) == 2 and p[1] == 'HI_BIT' and (p[0] == 'Limb' or (p[0] == 'Self' and self.self_ty == 'Limb')):
+                return '63#32', 32
+            if (len(p) == 2 and p[1] == 'ZERO' and self.generic and env.get(self.generic, (None, None))[1] == 'nat'
+                    and (p[0] == 'Uint' or (p[0] == 'Self' and self.self_ty == 'Uint'))):
+                # `Uint::ZERO` (`from_u8(0)`): all limbs zero
+                return f'(List.replicate {env[self.generic][0]} 0#64)', 'uint'
             raise Unsupported('path ' + '::'.join(p))
         if k == 'field':
             t, ty = self.ex(e[1], env)
@@ -638,6 +725,8 @@ class Gen:
                 return t, (64 if d == 1 else f'wrap:{d - 1}')
             if isinstance(ty, tuple):
                 return f'({t}).{e[2] + 1}', ty[e[2]]
+            if ty == 'odduint' and e[2] == 0:
+                return t, 'uint'
             raise Unsupported('field of ' + str(ty))
         if k == 'index':
             t, ty = self.ex(e[1], env)
@@ -758,6 +847,11 @@ class Gen:
         if k == 'method':
             name, recv, args = e[1], e[2], e[3]
             r, tr = self.ex(recv, env)
+            if (tr == 'wrap:1' and name in ('wrapping_add', 'wrapping_sub', 'wrapping_mul', 'wrapping_neg')
+                    and self.lookup(name, 'limb')[1] is not None):
+                return self.call(name, [recv] + args, env, 'limb')     # the translated `Limb` method rather than the builtin
+            if tr == 'uint' and name in ('wrapping_add', 'wrapping_sub', 'wrapping_mul', 'wrapping_neg'):
+                return self.call(name, [recv] + args, env, 'uint')     # never the word operation on a limb list
             if name in ('wrapping_add', 'wrapping_sub', 'wrapping_mul'):
                 b, tb = self.ex(args[0], env, tr)
                 if tb != tr:
@@ -1132,6 +1226,8 @@ class Gen:
         body = re.sub(r'//[^\n]*', '', body)
         body = re.sub(r'#\[[^\]]*\]', '', body)
         body = strip_debug_asserts(body)
+        if OPTS.get('skip_asserts'):
+            body = strip_debug_asserts(re.sub(r'\bassert\s*!', 'debug_assert!', re.sub(r'"[^"\n]*"', '0', body)))
         pr = P(tokenize(body))
         stmts, final = pr.block()
         if pr.peek()[0] != 'eof':
@@ -1173,7 +1269,7 @@ def impl_blocks(src, self_ty):
 def translate_file(path, ns, self_ty, want=None, private=False, ext=None):
     if isinstance(path, list):
         # a unit gathered from several files: the inherent impl blocks of `self_ty` in each of them
-        src = '\n'.join(impl_blocks(open(f).read(), self_ty) for f in path)
+        src = '\n'.join((impl_blocks(open(f).read(), self_ty) if self_ty else open(f).read()) for f in path)
     else:
         src = open(path).read()
         if self_ty:
@@ -1271,6 +1367,22 @@ FILES = [
              desc='impl<const LIMBS: usize> Uint<LIMBS>: add / sub / neg / compare loops over the limbs',
              want=['adc', 'wrapping_add', 'sbb', 'wrapping_sub', 'carrying_neg', 'wrapping_neg', 'is_nonzero', 'eq', 'lt', 'gt', 'lte']),
     ]),
+    # the modular add / sub / neg layer (C07): mask helpers, `add_mod` .. `neg_mod_special`, the Montgomery-form forwarders
+    ('Modular.lean', ['CB.Gen.Chains', None, 'set_option linter.unusedVariables false'], [
+        dict(key='limb_mod', rel=['src/limb/bit_and.rs', 'src/limb/bit_or.rs', 'src/limb/bit_not.rs', 'src/limb/neg.rs', 'src/limb/shl.rs'],
+             ns='CB.Gen.Modular.Limb', self_ty='Limb', desc='impl Limb: bitwise helpers of the modular layer',
+             want=['bitand', 'bitor', 'not', 'wrapping_neg', 'shl1'], use=['prim']),
+        dict(key='uint_mod', rel=['src/uint/bit_and.rs', 'src/uint/from.rs', 'src/uint/shl.rs', 'src/uint/add_mod.rs',
+                                  'src/uint/sub_mod.rs', 'src/uint/neg_mod.rs'],
+             ns='CB.Gen.Modular.Uint', self_ty='Uint', generic='LIMBS', skip_asserts=True, more_limb=['limb_mod'],
+             desc='impl<const LIMBS: usize> Uint<LIMBS>: mask helpers, add_mod / sub_mod / neg_mod and their special-modulus forms',
+             want=['bitand', 'bitand_limb', 'from_word', 'overflowing_shl1', 'add_mod', 'add_mod_special', 'double_mod',
+                   'sub_mod', 'sub_mod_with_carry', 'sub_mod_special', 'neg_mod', 'neg_mod_special']),
+        dict(key='form_mod', rel=['src/modular/add.rs', 'src/modular/sub.rs'], ns='CB.Gen.Modular.Form', self_ty=None,
+             generic='LIMBS', free_generic=True, more_limb=['limb_mod'], more_uint=['uint_mod'],
+             desc='Montgomery-form add / double / sub: forwarders to add_mod / double_mod / sub_mod',
+             want=['add_montgomery_form', 'double_montgomery_form', 'sub_montgomery_form']),
+    ]),
 ]
 
 AUX = re.compile(r'\w+_loop\d+$')
@@ -1333,6 +1445,10 @@ def main():
                     parts.append(stext); parts.append('')
             ext = dict(choice=reg.get('choice'), limb=reg.get('limb'), uint=reg.get('uint'),
                        use=[reg[k] for k in u.get('use', []) if k in reg])
+            ext['limb+'] = [reg[k] for k in u.get('more_limb', []) if k in reg]
+            ext['uint+'] = [reg[k] for k in u.get('more_uint', []) if k in reg]
+            OPTS.clear()
+            OPTS.update({k: u[k] for k in ('skip_asserts', 'free_generic') if u.get(k)})
             try:
                 order, out, failed, sigs = translate_file(path, ns, self_ty, u.get('want'), u.get('private', False), ext)
             except (Unsupported, OSError) as ex:
